@@ -29,6 +29,7 @@ var (
 	fSamples = flag.Int("sim.samples", 3, "number of sample traces to keep")
 	fFpOut   = flag.String("sim.fpout", "", "write distinct non-trivial fingerprints (binary uint64) here")
 	fMerge   = flag.String("sim.merge", "", "comma separated fingerprint files: print the number of distinct values")
+	fOnly    = flag.String("sim.only", "", "comma separated violation classes this check reports (others are counted as observations)")
 	fRetries = flag.Int("sim.retries", 1, "replay attempts (self-certifying classes may need several)")
 )
 
@@ -141,6 +142,7 @@ type workerOut struct {
 	Stub        []string         `json:"stub"`
 	Doc         string           `json:"doc"`
 	Cases       []string         `json:"cases"`
+	Observed    map[string]int64 `json:"observed_other_classes"`
 }
 
 func TestMain(m *testing.M) {
@@ -253,6 +255,23 @@ func TestSim(t *testing.T) {
 		if len(res.Violations) == 0 {
 			continue
 		}
+		if *fOnly != "" {
+			var keep []Violation
+			for _, v := range res.Violations {
+				if strings.Contains(","+*fOnly+",", ","+v.Class+",") || strings.HasPrefix(v.Class, "harness") {
+					keep = append(keep, v)
+				} else {
+					if out.Observed == nil {
+						out.Observed = map[string]int64{}
+					}
+					out.Observed[v.Class]++
+				}
+			}
+			res.Violations = keep
+			if len(keep) == 0 {
+				continue
+			}
+		}
 		unknown, matched := split(res.Violations, known)
 		for _, id := range matched {
 			out.Known[id]++
@@ -310,7 +329,7 @@ func TestSim(t *testing.T) {
 // minimise shrinks the tape of a failing run for violation v and returns the failure record.
 func minimise(t *testing.T, scn *Scenario, i int64, res *RunResult, v Violation, known []knownFinding) *failure {
 	f := &failure{Scenario: scn.Name, Property: scn.Prop, Seed: *fSeed, Run: i, Tape: res.Tape, OrigLen: len(res.Tape), Violation: v}
-	if *fShrink && !strings.HasPrefix(v.Class, "harness") {
+	if *fShrink && !strings.HasPrefix(v.Class, "harness") && v.Class != "race" {
 		f.Tape, f.ShrinkRuns = shrink(t, scn, res.Tape, v.Class, known)
 	}
 	// final traced run of the minimised tape
@@ -322,6 +341,10 @@ func minimise(t *testing.T, scn *Scenario, i int64, res *RunResult, v Violation,
 			found = true
 			break
 		}
+	}
+	if v.Class == "race" {
+		// the race runtime reports each pair of stacks once per process: an in-process re-run cannot show it again
+		found = true
 	}
 	if found {
 		f.Trace = fin.Trace
